@@ -69,9 +69,15 @@ CHECKS = {
                                      "the caller follows the DATA_OTHER hand-over protocol and offers no data after closing a direction"],
     ),
     "C10": dict(
-        bins=["fuzz_stream", "sreplay"], replay_bin="sreplay", replay_args=["--monitor", "C10"], campaigns=_fuzz("C10", ""), level="exploration",
+        bins=["fuzz_stream", "sreplay", "c10"], replay_bin="sreplay", replay_args=["--monitor", "C10"],
+        replay_route=[("steady ", "c10", []), ("limit ", "c10", [])],
+        campaigns=lambda tier, seed: [dict(name="c10", bin="c10", shards=16, timeout=2400)] + _fuzz("C10", "")(tier, seed), level="exploration",
         prepare="seeds",
-        rule=("after every call: request/response line buffer <= configured hard limit (limits drawn from {16..4096, default}), transactions held "
+        rule=("(1) limits: rapidcheck long-line cases of 9 kinds (request line, header value, folded header, repeated header, chunk-size line, status line, response "
+              "header, response folded header, max_tx) with hard limits from 16 B to 64 KiB and lengths around the limit, delivered in generated pieces (incl. fixed small "
+              "steps): retention monitor, no silent truncation when no ERROR, folded cap, repetition cap, max_tx+1; non-trivial = case in which the limit was actually hit "
+              "(ERROR). (2) steady state: 2500 (thorough 10000) transactions of each of 12 shapes x 4 personalities and rapidcheck mixes, auto-destroy + logging off + "
+              "htp_connp_tx_freed: live heap (ASan allocator statistics) and list length after every pair must not grow after warm-up; meter negative control. (3) fuzz: after every call: request/response line buffer <= configured hard limit (limits drawn from {16..4096, default}), transactions held "
               "<= max_tx + 1; non-trivial = history with >=2 data calls in which a headers callback fired"),
         assumptions=STREAM_ASSUME,
     ),
